@@ -14,6 +14,8 @@
 //   fin <texthex|-> <binhex|-|none> <rel> <imm> <commenthex|-> <pad0> <pad1>   EmitterUtils::finish_formatted_line
 //   num u|i <hex> <base> <width> <flags> String::append_uint / append_int
 //   hexs <byteshex> <sep>                String::append_hex
+//   node inst <id> <opts> <extra|-> <comment|-> <ops..> | node label <id> | node align <mode> <n> | node embed <size> <count> <repeat>
+//   node comment <hex>      (init .. bld) create the Builder node, answer Formatter::format_node of it;  nodelist -> format_node_list
 //   dump x86regs                         the file-static reg_format_info of x86formatter.cpp (translator input)
 //   dump x86names | a64names             InstAPI::inst_id_to_string of every id, plain and with aliases (translator input)
 //
@@ -35,6 +37,8 @@ using namespace asmjit;
 struct State {
   Arch arch = Arch::kX64;
   bool comp = false;
+  bool bld = false;       // plain Builder (node formatting)
+  unsigned pad0 = 0;
   FormatFlags flags = FormatFlags::kNone;
   std::unique_ptr<CodeHolder> code;
   std::unique_ptr<BaseEmitter> emitter;
@@ -230,17 +234,23 @@ static std::string step(const std::string& line) {
   if (w[0] == "init") {
     if (w.size() != 3) return "bad-op";
     Arch arch = w[1] == "x86" ? Arch::kX86 : w[1] == "x64" ? Arch::kX64 : w[1] == "a64" ? Arch::kAArch64 : Arch::kUnknown;
-    if (arch == Arch::kUnknown || (w[2] != "asm" && w[2] != "comp")) return "bad-op";
+    if (arch == Arch::kUnknown || (w[2] != "asm" && w[2] != "comp" && w[2] != "bld")) return "bad-op";
     S.emitter.reset();
     S.code.reset(new CodeHolder());
     S.logger.reset(new StringLogger());
     S.comments.clear();
     S.arch = arch;
     S.comp = w[2] == "comp";
+    S.bld = w[2] == "bld";
+    S.pad0 = 0;
     S.flags = FormatFlags::kNone;
     Environment env(arch);
     if (S.code->init(env) != Error::kOk) return "err init";
-    if (S.comp) {
+    if (S.bld) {
+      if (arch == Arch::kAArch64) S.emitter.reset(new a64::Builder());
+      else S.emitter.reset(new x86::Builder());
+    }
+    else if (S.comp) {
       if (arch == Arch::kAArch64) S.emitter.reset(new a64::Compiler());
       else S.emitter.reset(new x86::Compiler());
     }
@@ -249,7 +259,7 @@ static std::string step(const std::string& line) {
       else S.emitter.reset(new x86::Assembler());
     }
     if (S.code->attach(S.emitter.get()) != Error::kOk) return "err attach";
-    if (!S.comp) {
+    if (!S.comp && !S.bld) {
       S.emitter->set_logger(S.logger.get());
       // only instruction forms the validator knows are emitted (the encoder's behaviour on nonsense is C14's subject)
       S.emitter->add_diagnostic_options(DiagnosticOptions::kValidateAssembler);
@@ -322,6 +332,7 @@ static std::string step(const std::string& line) {
   }
   if (w[0] == "logopts") {
     if (w.size() != 4 || !vh::parse_u64(w[1], a) || !vh::parse_u64(w[2], b) || !vh::parse_u64(w[3], c) || a > 255 || b > 65535 || c > 65535) return "bad-op";
+    S.pad0 = unsigned(b);
     S.logger->set_indentation(FormatIndentationGroup::kCode, uint8_t(a));
     S.logger->options().set_padding(FormatPaddingGroup::kRegularLine, uint16_t(b));
     S.logger->options().set_padding(FormatPaddingGroup::kMachineCode, uint16_t(c));
@@ -372,6 +383,54 @@ static std::string step(const std::string& line) {
     if (w.size() != 2 || !parse_operand(w[1], o)) return "bad-op";
     String sb;
     Error e = Formatter::format_operand(sb, S.flags, S.emitter.get(), S.arch, o);
+    if (e != Error::kOk) return std::string("err ") + DebugUtils::error_as_string(e);
+    return text_out(sb);
+  }
+  if (w[0] == "node" || w[0] == "nodelist") {
+    // Builder nodes: create the node with the real BaseBuilder API and format it with Formatter::format_node (or the whole list)
+    if (!S.bld) return "bad-op";
+    BaseBuilder* bb = static_cast<BaseBuilder*>(S.emitter.get());
+    FormatOptions fo;
+    fo.set_flags(S.flags);
+    fo.set_padding(FormatPaddingGroup::kRegularLine, uint16_t(S.pad0));
+    if (w[0] == "nodelist") {
+      String sb;
+      Error e = Formatter::format_node_list(sb, fo, bb);
+      if (e != Error::kOk) return std::string("err ") + DebugUtils::error_as_string(e);
+      return text_out(sb);
+    }
+    if (w.size() < 2) return "bad-op";
+    Error e = Error::kOk;
+    if (w[1] == "inst") {
+      uint32_t inst_id, opts; RegOnly extra; size_t ops_at; std::string comment; bool has_comment;
+      if (!parse_inst_args(w, 2, inst_id, opts, extra, ops_at, true, comment, has_comment)) return "bad-op";
+      Operand_ ops[Globals::kMaxOpCount];
+      size_t n = w.size() - ops_at;
+      for (size_t i = 0; i < Globals::kMaxOpCount; i++) ops[i].reset();
+      for (size_t i = 0; i < n; i++) if (!parse_operand(w[ops_at + i], ops[i])) return "bad-op";
+      bb->set_inst_options(InstOptions(opts));
+      bb->set_extra_reg(extra);
+      if (has_comment) { S.comments.push_back(comment); bb->set_inline_comment(S.comments.back().c_str()); }
+      e = bb->_emit_op_array(inst_id, ops, n);
+    }
+    else if (w[1] == "label" && w.size() == 3 && vh::parse_u64(w[2], a)) e = bb->bind(Label(uint32_t(a)));
+    else if (w[1] == "align" && w.size() == 4 && vh::parse_u64(w[2], a) && vh::parse_u64(w[3], b) && a <= 2) e = bb->align(AlignMode(a), uint32_t(b));
+    else if (w[1] == "embed" && w.size() == 5 && vh::parse_u64(w[2], a) && vh::parse_u64(w[3], b) && vh::parse_u64(w[4], c) && b <= 64 && c <= 64) {
+      TypeId t = a == 1 ? TypeId::kUInt8 : a == 2 ? TypeId::kUInt16 : a == 4 ? TypeId::kUInt32 : a == 8 ? TypeId::kUInt64 : TypeId::kVoid;
+      if (t == TypeId::kVoid) return "bad-op";
+      std::vector<uint8_t> data(size_t(a * b) + 8, 0x5A);
+      e = bb->embed_data_array(t, data.data(), size_t(b), size_t(c));
+    }
+    else if (w[1] == "comment" && w.size() == 3) {
+      std::vector<uint8_t> cb;
+      if (!vh::hex_to_bytes(w[2], cb)) return "bad-op";
+      std::string cs(cb.begin(), cb.end());
+      e = bb->comment(cs.c_str(), cs.size());
+    }
+    else return "bad-op";
+    if (e != Error::kOk) { bb->reset_state(); return std::string("E ") + DebugUtils::error_as_string(e); }
+    String sb;
+    e = Formatter::format_node(sb, fo, bb, bb->cursor());
     if (e != Error::kOk) return std::string("err ") + DebugUtils::error_as_string(e);
     return text_out(sb);
   }
